@@ -20,7 +20,7 @@ func init() {
 	register(&Prop{
 		ID:       "C08",
 		Category: "model_checking",
-		Rule: "every member sequence of length 1..3 (quick) / 1..4 (thorough) over an alphabet of 9 members (one with the optional header CRC) (payload in {empty, 1 byte, 300 B text, 70 KB}; encoder in {fastgo 1, fastgo -2, compress/gzip 6, compress/gzip 0}; with/without Name, Comment, Extra (6, 6 and 5 bytes), ModTime, OS) x trailing data in {none, 8 zero bytes, 100 non-gzip bytes} x mode in {default multistream, Multistream(false) + Reset loop} x bufio size in {16, 512, 4096, 65536} x Read policy in {1 MiB, 4096, 1}; " +
+		Rule: "every member sequence of length 1..3 (quick) / 1..4 (thorough) over an alphabet of 10 members (one with the optional header CRC, one with header strings longer than the smallest bufio and Latin-1 characters) (payload in {empty, 1 byte, 300 B text, 70 KB}; encoder in {fastgo 1, fastgo -2, compress/gzip 6, compress/gzip 0}; with/without Name, Comment, Extra (6, 6 and 5 bytes), ModTime, OS) x trailing data in {none, 8 zero bytes, 100 non-gzip bytes} x mode in {default multistream, Multistream(false) + Reset loop} x bufio size in {16, 512, 4096, 65536} x Read policy in {1 MiB, 4096, 1}; " +
 			"oracle: default mode without trailing data: the concatenation of the payloads then io.EOF; with trailing data: whatever compress/gzip does on the same input; default mode: the header shown at the end is the first member's; member by member: payload and complete header of each member in order as compress/gzip reports them, headers kept by the caller unchanged after the later members have been read, the Reset after the last member behaves as compress/gzip's, and the source still holds the trailing data; non-trivial = at least two members",
 		Assumptions: []string{"compress/gzip defines the outcome for inputs with trailing non-gzip data"},
 		Quick:       TierSpec{MaxDev: -1, Shards: 4, ShardDepth: 3, BudgetS: 600},
@@ -67,6 +67,8 @@ func c08Harness(cfg *Cfg) func(x *mc.Exec) {
 		{"empty/fast-2+name", gzipMember(nil, -2, stdgzip.Header{Name: "e"}, true), nil, "e"},
 		// a member with the optional header CRC (no Go writer emits it; other tools do)
 		{"300B/std6+name+fhcrc", addFHCRC(gzipMember(text, 6, stdgzip.Header{Name: "crc"}, false)), text, "crc"},
+		// header strings longer than a small caller-owned bufio.Reader, with Latin-1 characters near the front
+		{"1byte/std6+longname+longcomment", gzipMember([]byte{'L'}, 6, stdgzip.Header{Name: "r\u00e9sum\u00e9-of-the-quarterly-report-for-the-board.txt", Comment: "\u00fcber 40 bytes of comment text, all of it plain ASCII after the first"}, false), []byte{'L'}, "r\u00e9sum\u00e9-of-the-quarterly-report-for-the-board.txt"},
 	}
 	maxLen := 3
 	if cfg.Thorough {
